@@ -15,6 +15,8 @@
 #define VK_ALLOC(n) malloc((n) > VK_MAX_ALLOC ? (n) : VK_MAX_ALLOC)
 #endif
 /* operator new / delete: allocation never fails (allocation failure is outside every claim). */
+/* ghost: number of blocks obtained from operator new / new[] and not yet given to delete (leak / double-free checks) */
+static int vk_live_blocks = 0;
 #ifdef VK_NO_HEAP
 /* SSO-only string model: every std::string in the query stays within its 15-byte local buffer; a
  * path that would allocate makes the query "undecided" (bound exceeded), never a pass. */
@@ -22,14 +24,24 @@ uint8_t* X__Znwm(uint64_t n) { (void)n; __CPROVER_assert(0, "MODEL: heap allocat
 #else
 uint8_t* X__Znwm(uint64_t n) { __CPROVER_assert(n <= VK_MAX_ALLOC, "MODEL: allocation size within modelled bound"); uint8_t* p = VK_ALLOC(n); __CPROVER_assume(p != 0); return p; }
 #endif
-void X__ZdlPv(uint8_t* p) { free(p); }
-void X__ZdlPvm(uint8_t* p, uint64_t n) { (void)n; free(p); }
-uint8_t* X__Znam(uint64_t n) { __CPROVER_assert(n <= VK_MAX_ALLOC, "MODEL: allocation size within modelled bound"); uint8_t* p = VK_ALLOC(n); __CPROVER_assume(p != 0); return p; }
-void X__ZdaPv(uint8_t* p) { free(p); }
+void X__ZdlPv(uint8_t* p) { if (p) vk_live_blocks--; free(p); }
+void X__ZdlPvm(uint8_t* p, uint64_t n) { (void)n; if (p) vk_live_blocks--; free(p); }
+uint8_t* X__Znam(uint64_t n) { __CPROVER_assert(n <= VK_MAX_ALLOC, "MODEL: allocation size within modelled bound"); uint8_t* p = VK_ALLOC(n); __CPROVER_assume(p != 0); vk_live_blocks++; return p; }
+void X__ZdaPv(uint8_t* p) { if (p) vk_live_blocks--; free(p); }
+#ifndef VK_OWN_NOTHROW_NEW
+uint8_t* X__ZnamRKSt9nothrow_t(uint64_t n, uint8_t* nt) { (void)nt; return X__Znam(n); }
+uint8_t* X__ZnwmRKSt9nothrow_t(uint64_t n, uint8_t* nt) { (void)nt; return X__Znwm(n); }
+#endif
 uint8_t* X_memchr(uint8_t* s, uint32_t c, uint64_t n) { for (uint64_t i = 0; i < n; i++) if (s[i] == (uint8_t)c) return s + i; return 0; }
 uint32_t X_memcmp(uint8_t* a, uint8_t* b, uint64_t n) { for (uint64_t i = 0; i < n; i++) if (a[i] != b[i]) return a[i] < b[i] ? (uint32_t)-1 : 1; return 0; }
 uint32_t X_bcmp(uint8_t* a, uint8_t* b, uint64_t n) { for (uint64_t i = 0; i < n; i++) if (a[i] != b[i]) return 1; return 0; }
 uint64_t X_strlen(uint8_t* s) { uint64_t n = 0; while (s[n]) n++; return n; }
 void X_abort(void) { __CPROVER_assert(0, "NORETURN: abort"); __CPROVER_assume(0); }
 void X___cxa_pure_virtual(void) { __CPROVER_assert(0, "NORETURN: pure virtual"); __CPROVER_assume(0); }
+#endif
+#ifndef __CPROVER__
+#ifndef VERIF_MODELS_NOTHROW
+#define VERIF_MODELS_NOTHROW
+uint8_t G__ZSt7nothrow[1]; /* std::nothrow (an external global of libstdc++) for native builds of generated code */
+#endif
 #endif
